@@ -86,6 +86,16 @@ fn nfc_first_carry_only(base2k: usize, lsh: usize, a: &[i128], carry: &mut [i128
     }
 }
 
+/// Moves `carry` up by one limb that holds no data: `carry <- carry_out(0 + carry)`.
+///
+/// Analogous to `znx_normalize_carry_through_empty_limb_ref` but for `i128`.
+#[inline(always)]
+fn nfc_carry_through_empty_limb(base2k: usize, carry: &mut [i128]) {
+    carry.iter_mut().for_each(|c| {
+        *c = get_carry_i128(base2k, *c, get_digit_i128(base2k, *c));
+    });
+}
+
 /// Middle carry-only step from an inner `i128` limb of `a` (adds previous carry).
 ///
 /// Analogous to `znx_normalize_middle_step_carry_only_ref` but for `i128`.
@@ -416,6 +426,12 @@ fn ntt120_vec_znx_big_normalize_inter<R, A, BE>(
         nfc_zero(carry);
     }
 
+    // Limbs between the last limb of res and the first shifted limb of a hold no data,
+    // but the carry still travels through them.
+    for _ in (res_size as i64)..(-limbs_offset) {
+        nfc_carry_through_empty_limb(base2k, carry);
+    }
+
     // Zero bottom res limbs that will not receive a value.
     for j in res_start..res_size {
         res.at_mut(res_col, j).fill(0);
@@ -644,6 +660,12 @@ fn ntt120_vec_znx_big_normalize_inter_assign<O, R, A, BE>(
     }
     if a_out_range == 0 {
         nfc_zero(carry);
+    }
+
+    // Limbs between the last limb of res and the first shifted limb of a hold no data,
+    // but the carry still travels through them.
+    for _ in (res_size as i64)..(-limbs_offset) {
+        nfc_carry_through_empty_limb(base2k, carry);
     }
 
     let mid_range: usize = a_start.saturating_sub(a_end);
